@@ -23,7 +23,10 @@ NoMem == [entry |-> FALSE, hasLimit |-> FALSE, act |-> <<>>, del |-> <<>>, pend 
           nAct |-> 0, nDel |-> 0, nPend |-> 0]
 Tracked(m) == Cardinality(ToSet(m.act) \cup ToSet(m.del) \cup ToSet(m.pend))
 
-St0(cfg) == [cfg |-> cfg, claims |-> {}, idx |-> {}, mem |-> NoMem, gcDropped |-> FALSE]
+\* taintFail / createFail: the behaviour made a taint patch / a NodeClaim create fail (the two places after which a
+\* reservation has to be given back without a NodeClaim having been created)
+St0(cfg) == [cfg |-> cfg, claims |-> {}, idx |-> {}, mem |-> NoMem, gcDropped |-> FALSE, taintFail |-> FALSE,
+             createFail |-> FALSE]
 TraceInit == l = 1 /\ st = St0([limit |-> 0]) /\ viol = <<>> /\ ntr = 0 /\ done = FALSE
 
 IsClaim == Ev.kind = "NodeClaim"
@@ -58,8 +61,14 @@ TMem ==
            now == Ev.mem
            dropped == (was.entry \/ was.hasLimit) /\ ~(now.entry \/ now.hasLimit)
                       /\ (was.res > 0 \/ ToSet(was.pend) # {})
-       IN st' = [st EXCEPT !.mem = now, !.gcDropped = @ \/ dropped]
-    /\ UNCHANGED viol
+           \* an informer delivery never releases a reservation: if the counter went down across one, the entry was
+           \* collected and re-created inside cluster.UpdateNodeClaim (Cleanup on provider-id change, then UpdateNodeClaim)
+           infDrop == Ev.after \in {"I_Deliver", "I_Update", "GC"} /\ now.res < was.res
+       IN /\ st' = [st EXCEPT !.mem = now, !.gcDropped = @ \/ dropped \/ infDrop]
+          \* the reserved counter covers every grant whose API call is still held at the gate
+          /\ viol' = viol \o Chk(now.res >= Ev.heldGrants, "G_C03_ReservedCovers",
+                                  IF st.gcDropped \/ dropped \/ infDrop THEN "after-entry-gc-dropped-pending-or-reservation"
+                                  ELSE "reserved-below-held-grants")
 
 TPanic ==
     /\ Ev.e = "Panic"
@@ -69,7 +78,8 @@ TPanic ==
     /\ UNCHANGED st
 
 \* bounded progress: environment quiet, every controller and the environment's progress steps ran to a fix-point
-SettleSig(m) == IF m.res > 0 THEN "reservation-leaked"
+SettleSig(m) == IF m.res > 0 THEN "reservation-leaked:" \o (IF st.taintFail THEN "taint-failure" ELSE "no-taint-failure")
+                                                      \o (IF st.createFail THEN "+create-failure" ELSE "")
                 ELSE IF ToSet(m.act) \cup ToSet(m.del) \cup ToSet(m.pend) # ToSet(m.map) THEN "untracked-entry-kept"
                 ELSE "other"
 TQuiesce ==
@@ -79,12 +89,16 @@ TQuiesce ==
                         ELSE <<>>)
     /\ st' = [st EXCEPT !.mem = Ev.mem]
 
-TOther == Ev.e \in {"Step", "Skip", "Begin", "End", "EndTrace", "Tick", "Prov", "Read"} /\ UNCHANGED <<st, viol>>
+TStep == /\ Ev.e = "Step"
+         /\ st' = [st EXCEPT !.taintFail = @ \/ (Ev.a = "X_Taint" /\ Ev.ok = "false"),
+                             !.createFail = @ \/ (Ev.a = "W_Create" /\ Ev.ok = "false")]
+         /\ UNCHANGED viol
+TOther == Ev.e \in {"Skip", "Begin", "End", "EndTrace", "Tick", "Prov", "Read"} /\ UNCHANGED <<st, viol>>
 
 TraceNext ==
     \/ /\ l <= Len(Trace) /\ l' = l + 1 /\ UNCHANGED done
        /\ \/ (Ev.e = "Cfg" /\ st' = St0(Ev) /\ ntr' = ntr + 1 /\ UNCHANGED viol)
-          \/ ((TApi \/ TEnv \/ TMem \/ TPanic \/ TQuiesce \/ TOther) /\ UNCHANGED ntr)
+          \/ ((TApi \/ TEnv \/ TMem \/ TPanic \/ TQuiesce \/ TStep \/ TOther) /\ UNCHANGED ntr)
     \/ /\ l = Len(Trace) + 1 /\ ~done /\ done' = TRUE
        /\ JsonSerialize(IOEnv.OUT, [viol |-> viol, consumed |-> l - 1, traces |-> ntr])
        /\ UNCHANGED <<l, st, viol, ntr>>
